@@ -121,6 +121,15 @@ def judge(w, B1, T1, close_after):
     bad = []
     if close_after and w.X.alive:
         w.X.close()
+    # the event loop goes on: two manager steps (the second one past the first back-off interval), during which the
+    # node dials whatever the attacker announced; refused / unanswered dials are then reported by the selector
+    for dt in (1, 11):
+        w.net.clock.t += dt
+        w.node.tick()
+        for s_ in list(w.net.dialling):
+            w.net.complete_dial(s_)
+            if s_.error is not None:
+                w.node.read_event(s_)
     a = w.observe()
     b = w.before
     if w.net.escaped:
@@ -330,6 +339,16 @@ def mutant_families(ctx, phase):
             yield 'broken-tx', nm, b''.join(hello) + frame(hdr53 + body), False, F1
     finally:
         w.close()
+    # 7c. peers messages announcing special addresses (dialled by the next manager steps)
+    from skepticoin.networking import messages as M
+    specials = ['224.0.0.1', '239.255.255.250', '255.255.255.255', '0.0.0.0', '127.0.0.1', '10.0.0.1', '5.5.5.5', '6.6.6.6', '240.0.0.1']
+    hdr53 = msgs[names.index('peers')][1][:53]
+    for host in specials:
+        for port in (0, 1, 2412, 65535):
+            pm = M.PeersMessage([M.Peer(0, IPv6Address('::ffff:%s' % host), port)])
+            yield 'peers-announce', '%s:%d' % (host, port), b''.join(hello) + frame(hdr53 + pm.serialize()), False, F1
+    pm = M.PeersMessage([M.Peer(0, IPv6Address('::ffff:%s' % h), 2412) for h in specials] * 3)
+    yield 'peers-announce', 'all special addresses, three times', b''.join(hello) + frame(hdr53 + pm.serialize()), False, F1
     # 8. magic
     for i in range(4):
         for v in (0, 0xff, full[i] ^ 1):
